@@ -85,7 +85,7 @@ REG = {
         dict(name='c13::xmd_255_blocks_ok', tier='thorough', t=3600, mem=24),
         dict(name='c13::xmd_256_blocks_abort', tier='quick', t=1800),
         dict(name='c13::xmd_510_bytes_ok', tier='thorough', t=3600, mem=24),
-        dict(name='c13::xmd_511_bytes_abort', tier='quick', t=1800),
+        dict(name='c13::xmd_511_bytes_abort', tier='quick', t=600),
         dict(name='c13::xmd_dst255', tier='thorough', t=3600, mem=24),
         dict(name='c13::xof_dst255', tier='quick', t=1800),
         dict(name='c13::xof_m3_d3_l7', tier='quick', t=1800),
